@@ -9,7 +9,7 @@ source on every run (`Gen/Walk.lean`, `Gen/Loads.lean`, `Gen/Fbs.lean`).  This f
   the flatbuffer schemas (address, embedded message, tuple items, plain data) — `Tie/Walk.lean`
   proves that it is total over the regenerated schema, so a new field breaks the tie until it is
   reviewed;
-* the explicit lists of omissions that are known (reported as findings, DESIGN.md §11 d);
+* the explicit lists of what is still exempt (`tupleExempt`, `knownMissingEncs`);
 * the object-level semantics: an object is the assignment of address lists to its fields (sub-tables
   and embedded messages flattened: a field is named by `(table, field)`); the walker reports the
   addresses of the walked fields, a loader reads the addresses of the loaded fields.
@@ -95,16 +95,11 @@ def nonChunkTables : List String := [
   "BranchControlNamespaceValue", "BranchControlBinlog", "BranchControlBinlogRow",
   "BranchControlMatchExpression"]
 
-/-! ## omissions that are known findings (DESIGN.md §11 d, design/C09.md) -/
+/-! ## omissions that are still known findings (design/C09.md)
 
-/-- address fields of a stored working set that `doltdb.newWorkingSet` (or `dolt revert
---continue`) dereferences but `SerialMessage.WalkAddrs` does not report -/
-def knownMissing : List Fld := [
-  ("RebaseState", "pre_working_root_addr"), ("RebaseState", "onto_commit_addr"),
-  ("MergeState", "pre_merge_head_commit_addr"), ("MergeState", "pending_commit_hashes")]
-
-/-- sub-table descents the walker does not make although the sub-table holds addresses -/
-def knownMissingSubtables : List Fld := [("WorkingSet", "rebase_state")]
+The four working-set omissions of DESIGN.md §11 d (`rebase_state.{pre_working_root_addr,
+onto_commit_addr}`, `merge_state.{pre_merge_head_commit_addr, pending_commit_hashes}`) were repaired
+in /repo (`fix:` commit bf9bc24); no field-level or sub-table exemption is left. -/
 
 /-- tuple fields whose embedded addresses are not recorded in any offsets field.
 * `ProllyTreeNode.key_items`, `AddressMap.key_items`, `MergeArtifacts.value_items`: key tuples /
